@@ -21,7 +21,8 @@ def run(unit_name, samples, seed, src=None):
     p = subprocess.run(['gcc', '-std=gnu11', '-O1', '-w', '-c', cfile, '-o', obj], stdout=subprocess.PIPE, stderr=subprocess.STDOUT)
     if p.returncode != 0:
         return None, 'lowered text does not compile natively: ' + p.stdout.decode()[-1500:]
-    inc = os.path.dirname(os.path.dirname(core.HEADER))
+    from . import native
+    inc = native.INC()
     p = subprocess.run(['g++', '-std=c++17', '-O1', '-w', '-I', inc, os.path.join(core.VERIF, DRIVERS[unit_name]), obj, '-o', exe], stdout=subprocess.PIPE, stderr=subprocess.STDOUT)
     if p.returncode != 0:
         return None, 'fidelity driver does not build: ' + p.stdout.decode()[-1500:]
